@@ -30,11 +30,14 @@ type Prog struct {
 	Roots []*packages.Package
 	All   map[string]*packages.Package
 
-	funcs   []*Func
-	byObj   map[*types.Func]*Func
-	byLit   map[*ast.FuncLit]*Func
-	byName  map[string]*Func
-	parents map[ast.Node]ast.Node
+	funcs    []*Func
+	allFuncs []*Func // including adopted helpers
+	byObj    map[*types.Func]*Func
+	byLit    map[*ast.FuncLit]*Func
+	byName   map[string]*Func
+	parents  map[ast.Node]ast.Node
+	// vanished: pinned literals of a function that have no counterpart in this tree
+	vanished map[string][]vanishedLit
 
 	ssaState *ssaState
 }
@@ -50,7 +53,14 @@ type Func struct {
 	Body   *ast.BlockStmt
 	Type   *ast.FuncType
 	Name   string
-	Lits   []*Func // directly nested literals, in source order
+	Lits   []*Func // directly nested literals, in source order (plus those of adopted helpers)
+
+	// Adopter is set for a fresh single-use helper: the function its body is read as part of (inline.go).
+	Adopter *Func
+	inlined []inlineSite
+	// LitAlias is the pinned literal name a spawned helper stands in for.
+	LitAlias  string
+	spawnCall *ast.CallExpr
 
 	cfg *CFG
 }
@@ -64,8 +74,22 @@ func (f *Func) Pos() token.Pos {
 }
 func (f *Func) String() string { return f.Name }
 
-// Root returns the enclosing declared function.
+// Root returns the enclosing declared function; an adopted helper belongs to its adopter's root.
 func (f *Func) Root() *Func {
+	for i := 0; i < 64; i++ {
+		if f.Parent != nil {
+			f = f.Parent
+		} else if f.Adopter != nil {
+			f = f.Adopter
+		} else {
+			break
+		}
+	}
+	return f
+}
+
+// SynRoot returns the syntactically enclosing declared function (adoption ignored).
+func (f *Func) SynRoot() *Func {
 	for f.Parent != nil {
 		f = f.Parent
 	}
@@ -106,7 +130,7 @@ func Load(dir string, overlay map[string][]byte) (*Prog, error) {
 	}
 	p := &Prog{Dir: dir, Fset: fset, All: map[string]*packages.Package{},
 		byObj: map[*types.Func]*Func{}, byLit: map[*ast.FuncLit]*Func{}, byName: map[string]*Func{},
-		parents: map[ast.Node]ast.Node{}}
+		parents: map[ast.Node]ast.Node{}, vanished: map[string][]vanishedLit{}}
 	var errs []string
 	packages.Visit(pkgs, nil, func(pk *packages.Package) {
 		p.All[pk.PkgPath] = pk
@@ -138,6 +162,8 @@ func Load(dir string, overlay map[string][]byte) (*Prog, error) {
 	for _, pk := range p.Roots {
 		p.indexPkg(pk)
 	}
+	p.allFuncs = append([]*Func{}, p.funcs...)
+	p.adoptFresh()
 	theProg = p
 	pureDefMemo = map[types.Object]ast.Expr{}
 	return p, nil
@@ -211,20 +237,23 @@ func (p *Prog) indexPkg(pk *packages.Package) {
 }
 
 func (p *Prog) indexLits(f *Func) {
-	n := 0
+	var lits []*ast.FuncLit
 	ast.Inspect(f.Body, func(x ast.Node) bool {
 		if lit, ok := x.(*ast.FuncLit); ok {
-			n++
-			g := &Func{P: p, Pkg: f.Pkg, Lit: lit, Parent: f, Body: lit.Body, Type: lit.Type,
-				Name: fmt.Sprintf("%s$%d", f.Name, n)}
-			f.Lits = append(f.Lits, g)
-			p.funcs = append(p.funcs, g)
-			p.byLit[lit] = g
-			p.indexLits(g)
+			lits = append(lits, lit)
 			return false
 		}
 		return true
 	})
+	names := p.literalNames(f, lits)
+	for i, lit := range lits {
+		g := &Func{P: p, Pkg: f.Pkg, Lit: lit, Parent: f, Body: lit.Body, Type: lit.Type, Name: names[i]}
+		f.Lits = append(f.Lits, g)
+		p.funcs = append(p.funcs, g)
+		p.byLit[lit] = g
+		p.byName[g.Name] = g
+		p.indexLits(g)
+	}
 }
 
 // Funcs returns every source function (declarations and literals) of the repository.
@@ -381,7 +410,7 @@ func (p *Prog) Method(q string) *types.Func {
 // EnclosingFuncAt returns the innermost source function whose body contains pos.
 func (p *Prog) EnclosingFuncAt(pos token.Pos) *Func {
 	var best *Func
-	for _, f := range p.funcs {
+	for _, f := range p.allFuncs {
 		lo, hi := f.Pos(), f.Body.End()
 		if pos >= lo && pos <= hi {
 			if best == nil || (lo >= best.Pos() && hi <= best.Body.End()) {
